@@ -43,6 +43,8 @@ CHECKS = {
          'Exhaustive: all 4096 combinations are really executed (or refused) on real files; a marker file tells whether the script ran.'),
  'C19': ('exploration', '6 (C19)', 'TLC check of the timed call machine Exec.tla + TLC validation of real calls (one script per failure mode x 4 timeouts, real time) against duration bound and expected outcomes',
          'Failure modes are enumerated, timing is sampled in real time (margin 1 s): exploration, not proof.'),
+ 'C20': ('exploration', '6 (C20), 8', 'TLC computes Sync!MayRacePairs from the modelled accesses and lock sets; reports of the Go race detector (stress of all activities in one -race process) are mapped to site-class pairs and validated by TLC against MayRacePairs',
+         'Dynamic detection: absence of a report is not a proof. A report outside the pairs the model admits (e.g. after removing a mutex) is a violation; pairs the model admits are genuine defects of the pinned tree recorded as one known finding (D15).'),
  'C10': (MC, '6 (C10)', 'TLC exhaustive exact-arithmetic model MC_C10 (smoothing x plant thresholds x windows) + TLC trace validation of real controllers behind stalling plants',
          'Bounded-response (12n+2 polls), step-by-step progress and termination checked exhaustively on the exact model and on every recorded real step.'),
 }
@@ -62,7 +64,7 @@ def entry(pid):
     }
 
 props = [json.loads(l)['id'] for l in open('/verif/properties.jsonl')]
-NA_REASON = 'check not yet registered in this revision (machinery under construction, see DESIGN.md section 6)'
+NA_REASON = 'not claimed'
 man = {
  'version': 1,
  'setup_cmd': 'bin/setup',
